@@ -57,9 +57,9 @@ theorem C16.own_ack (s : St) (id : Nat) (ok : Bool) (c : Nat) (s' : St)
       refine ⟨k, hmem, ?_⟩
       have hcc : c' = c := by
         split at h
-        · simpa using h
+        · simp at h; exact h.2
         · split at h
-          · simpa using h
+          · simp at h; exact h.2
           · split at h <;> simp at h
       subst hcc
       exact ⟨hp.1, hp.2.1, hp.2.2, hc'⟩
@@ -79,7 +79,7 @@ theorem C16.own_reply (s : St) (tok req c : Nat) (s' : St) (h : step s (.reply t
       simp only [decide_eq_true_eq] at hp
       split at h
       · next hph =>
-        have hcc : c' = c := by simpa using h
+        have hcc : c' = c := by simp at h; exact h.2
         subst hcc
         exact ⟨k, hmem, hp.1, hp.2, hph, hc'⟩
       · simp at h
@@ -90,6 +90,7 @@ theorem C16.early_reply (s : St) (hs : Inv s) (k : Caller) (hk : k ∈ s.callers
     (hp : k.phase = .waitAck) (hr : alGet k.id s.replyReg = some k.c) (hnp : k.parkedReply = none) (tok : Nat) :
     let s1 := (step s (.reply tok k.id)).1
     (step s (.reply tok k.id)).2 = .nobody ∧ (step s1 (.ack k.id true)).2 = .returnedReply k.c tok := by
+  have _ := hnp   -- not needed: a second early reply would overwrite the parked one
   obtain ⟨h1, h2, h3⟩ := reply_early hs.oneEach hk hp hr tok
   refine ⟨h1, ?_⟩
   show (ack (reply s tok k.id).1 k.id true).2 = .returnedReply k.c tok
@@ -110,8 +111,7 @@ theorem C16.unknown_ignored (s : St) (id tok : Nat) (ok : Bool) :
   · intro h
     simp only [step, ack, h]
   · intro h
-    have h' : alGet id (enq s tok id).replyReg = none := by rw [enq_replyReg]; exact h
-    simp only [step, reply_eq, replyCore, h', enq_callers, enq_ackReg, enq_replyReg, and_self]
+    simp only [step, reply_eq, replyCore, enq_replyReg, h, enq_callers, enq_ackReg, and_self]
 
 /-- ERROR IS LOCAL: a negative ack (or any ack / reply) removes at most the caller it belongs to; every other blocked caller and
     every other registration is untouched -/
@@ -141,13 +141,92 @@ def gotReplies : List Out → List (Nat × Nat)
   | .gotReply t q :: r => (t, q) :: gotReplies r
   | _ :: r => gotReplies r
 
+theorem gotToks_cons_other (o : Out) (os : List Out) (h : ∀ t, o ≠ .got t) : gotToks (o :: os) = gotToks os := by
+  cases o <;> first | rfl | exact absurd rfl (h _)
+
+theorem gotReplies_cons_other (o : Out) (os : List Out) (h : ∀ t q, o ≠ .gotReply t q) :
+    gotReplies (o :: os) = gotReplies os := by
+  cases o <;> first | rfl | exact absurd rfl (h _ _)
+
+theorem fifo_aux : ∀ (evs : List Ev) (s : St),
+    (∀ n, (run s (evs.take n)).1.callInbox.length < cap ∧ (run s (evs.take n)).1.replyInbox.length < cap) →
+    gotToks (run s evs).2 ++ (run s evs).1.callInbox = s.callInbox ++ incomingToks evs ∧
+    gotReplies (run s evs).2 ++ (run s evs).1.replyInbox = s.replyInbox ++ replyToks evs
+  | [], s, _ => by simp [run_nil, gotToks, gotReplies, incomingToks, replyToks]
+  | e :: r, s, hcap => by
+    have h0 : s.callInbox.length < cap ∧ s.replyInbox.length < cap := hcap 0
+    have ih := fifo_aux r (step s e).1 (fun n => by
+      have := hcap (n + 1)
+      rwa [List.take_succ_cons, run_cons] at this)
+    rw [run_cons]
+    obtain ⟨ih1, ih2⟩ := ih
+    cases e with
+    | call c id w =>
+      exact ⟨ih1, ih2⟩
+    | ack id ok =>
+      simp only [step] at ih1 ih2 ⊢
+      rw [gotToks_cons_other _ _ (ack_not_got s id ok).1, gotReplies_cons_other _ _ (ack_not_got s id ok).2]
+      rw [ack_callInbox] at ih1
+      rw [ack_replyInbox] at ih2
+      exact ⟨ih1, ih2⟩
+    | reply t q =>
+      simp only [step, reply_eq] at ih1 ih2 ⊢
+      rw [gotToks_cons_other _ _ (replyCore_not_got _ t q).1, gotReplies_cons_other _ _ (replyCore_not_got _ t q).2]
+      rw [replyCore_callInbox, enq_callInbox] at ih1
+      rw [replyCore_replyInbox] at ih2
+      refine ⟨ih1, ?_⟩
+      rw [ih2]
+      simp only [enq, if_pos h0.2, replyToks, List.append_assoc, List.cons_append, List.nil_append]
+    | incoming t =>
+      simp only [step] at ih1 ih2 ⊢
+      have hri : (incoming s t).replyInbox = s.replyInbox := by unfold incoming; split <;> rfl
+      rw [hri] at ih2
+      refine ⟨?_, ih2⟩
+      show gotToks (run (incoming s t) r).2 ++ _ = _
+      rw [ih1]
+      simp only [incoming, if_pos h0.1, incomingToks, List.append_assoc, List.cons_append, List.nil_append]
+    | recvCall =>
+      simp only [step] at ih1 ih2 ⊢
+      cases he : s.callInbox with
+      | nil =>
+        have hs : recvCall s = (s, .empty) := by simp only [recvCall, he]
+        rw [hs] at ih1 ih2 ⊢
+        rw [he] at ih1
+        exact ⟨ih1, ih2⟩
+      | cons t q =>
+        have hs : recvCall s = ({ s with callInbox := q }, .got t) := by simp only [recvCall, he]
+        rw [hs] at ih1 ih2 ⊢
+        exact ⟨congrArg (t :: ·) ih1, ih2⟩
+    | recvReply =>
+      simp only [step] at ih1 ih2 ⊢
+      cases he : s.replyInbox with
+      | nil =>
+        have hs : recvReply s = (s, .empty) := by simp only [recvReply, he]
+        rw [hs] at ih1 ih2 ⊢
+        rw [he] at ih2
+        exact ⟨ih1, ih2⟩
+      | cons tq rr =>
+        obtain ⟨t, q⟩ := tq
+        have hs : recvReply s = ({ s with replyInbox := rr }, .gotReply t q) := by simp only [recvReply, he]
+        rw [hs] at ih1 ih2 ⊢
+        exact ⟨ih1, congrArg ((t, q) :: ·) ih2⟩
+    | cancel c =>
+      obtain ⟨_, _, hc1, hc2, _, hn1, hn2⟩ := cancel_fields s c
+      simp only [step] at ih1 ih2 ⊢
+      rw [gotToks_cons_other _ _ hn1, gotReplies_cons_other _ _ hn2]
+      rw [hc1] at ih1
+      rw [hc2] at ih2
+      exact ⟨ih1, ih2⟩
+    | reconnect =>
+      exact ⟨ih1, ih2⟩
+
 /-- INBOXES: incoming calls and replies are handed to ReceiveCall / ReceiveReplyCall once each, unmodified, in arrival order
     (while the 1024-deep inboxes do not overflow): received so far ++ still queued = arrived -/
 theorem C16.inbox_fifo_once (evs : List Ev)
     (hcap : ∀ n, (run {} (evs.take n)).1.callInbox.length < cap ∧ (run {} (evs.take n)).1.replyInbox.length < cap) :
     gotToks (run {} evs).2 ++ (run {} evs).1.callInbox = incomingToks evs ∧
     gotReplies (run {} evs).2 ++ (run {} evs).1.replyInbox = replyToks evs := by
-  sorry
+  simpa using fifo_aux evs {} hcap
 
 /-- a reconnect keeps every waiter registration and both inboxes; a cancelled caller leaves alone, nobody else is affected -/
 theorem C16.reconnect_and_cancel (s : St) (c : Nat) :
